@@ -455,8 +455,8 @@ impl Check for C14 {
         // non-ASCII short and long names
         for k1 in [Kind::Switch, Kind::ArgOpt, Kind::Count] {
             for k2 in [Kind::ArgReq, Kind::ReqFlag] {
-                let a = Named { names: Names::both('ä', "änderung"), kind: k1, hidden: false, ty: Ty::Os, adjacent: false };
-                let b = Named { names: Names::short('ß'), kind: k2, hidden: false, ty: Ty::Os, adjacent: false };
+                let a = Named { names: Names::both('ä', "änderung"), kind: k1, hidden: false, ty: Ty::Os, adjacent: false, guarded: false };
+                let b = Named { names: Names::short('ß'), kind: k2, hidden: false, ty: Ty::Os, adjacent: false, guarded: false };
                 out.push(serde_json::to_value(Unit { level: fam::leaf(vec![a, b], Tail::None), len: tier.pick(2, 3), completers: vec![], fallback_with: false, decor: 0, hidden_cmds: vec![] }).unwrap());
             }
         }
